@@ -490,16 +490,15 @@ where
         feature_class: u64,
         only_baked: bool,
     ) -> (TrackDistanceOk<OA>, TrackDistanceErr<OA>) {
-        let tracks_vec = self.fetch_tracks(tracks);
+        let tracks_vec = tracks
+            .iter()
+            .filter_map(|track_id| self.get_store(*track_id as usize).get(track_id).cloned())
+            .collect::<Vec<_>>();
 
-        let res = self.foreign_track_distances(tracks_vec.clone(), feature_class, only_baked);
+        let res = self.foreign_track_distances(tracks_vec, feature_class, only_baked);
 
         #[cfg(similari_verif)]
         crate::verif_hook::at("owned.sent", &[self.verif_uid()]);
-
-        for t in tracks_vec {
-            self.add_track(t).unwrap();
-        }
 
         res
     }
